@@ -43,3 +43,13 @@ package compiler
 //@   ensures[holds] c.constants[int(r[0]) + 256*int(r[1])] == i
 //@   ensures[grows] len(c.constants) >= old(len(c.constants)) && len(c.constants) <= old(len(c.constants)) + 1
 //@   ensures[stable] forall(k, 0, old(len(c.constants)), c.constants[k] == old(c.constants[k]))
+
+// emit appends the opcode and its operand bytes and returns the offset of the first operand byte (C05, C13)
+//@ func compiler.compiler.emit returns current
+//@   property C05 C13
+//@   mode panics
+//@   requires c != nil && c.locations != nil && obj(c.bytecode) != obj(c) && obj(c.nodes) != obj(c) && obj(c.nodes) != obj(c.bytecode)
+//@   ensures[offset] current == old(len(c.bytecode)) + 1
+//@   ensures[len] len(c.bytecode) == old(len(c.bytecode)) + 1 + len(b)
+//@   ensures[opcode] c.bytecode[old(len(c.bytecode))] == op
+//@   ensures[located] has(c.locations, old(len(c.bytecode)))
